@@ -197,24 +197,53 @@ def rule_exec(ctx):
             for bb in reset_blocks:
                 for k in ev_reset.keys_at(body, bb):
                     reset_nodes.add(k[0])
-            # EXEC-2 current executing task set before, restored after
-            repl = [c for c in body.find_calls(lambda c: c.qname == 'std::option::Option::replace' and ctx.is_cur(body.orig_operand(c.args[0])))]
-            repl_bbs = {c.bb for c in repl}
+            # EXEC-2 current executing task set before, restored after. Setting = Option::replace(cur, n) | mem::replace(cur, Some(n)) |
+            # Option::insert(cur, n) | `cur = Some(n)`; the saved value = the result of a replace/take, or a copy of cur read before.
+            sets = []   # (block, node origins, call-or-None)
+            for c in body.calls.values():
+                if body.blocks[c.bb]['cleanup'] or not c.args or not ctx.is_cur(body.orig_operand(c.args[0])):
+                    continue
+                if c.qname in ('std::option::Option::replace', 'std::option::Option::insert') and len(c.args) > 1:
+                    sets.append((c.bb, body.orig_operand(c.args[1]), c))
+                elif c.qname == 'std::mem::replace' and len(c.args) > 1:
+                    vo = body.orig_operand(c.args[1])
+                    inner = set()
+                    for o in vo:
+                        if o.kind == 'aggr' and body.blocks[o.key[0]]['stmts'][o.key[1]]['rv']['ak'].get('variant') == 'Some':
+                            inner |= set(body.orig_operand(F.operand(body.blocks[o.key[0]]['stmts'][o.key[1]]['rv']['ops'][0])))
+                    if inner:
+                        sets.append((c.bb, frozenset(inner), c))
+            for (bb, si, place, rv, ln) in body.stores:
+                if ctx.is_cur(body.orig_place(place)) and not any(isinstance(p_, tuple) and p_[0] == 'd' for p_ in place[1]):
+                    if rv['k'] == 'aggr' and rv['ak'].get('variant') == 'Some':
+                        sets.append((bb, body.orig_operand(F.operand(rv['ops'][0])), None))
+                    elif rv['k'] == 'use':
+                        vo = body.orig_operand(F.operand(rv['op']))
+                        for o in vo:
+                            if o.kind == 'aggr' and body.blocks[o.key[0]]['stmts'][o.key[1]]['rv']['ak'].get('variant') == 'Some' and x.bb in body.reach([bb], avoid=inf):
+                                sets.append((bb, body.orig_operand(F.operand(body.blocks[o.key[0]]['stmts'][o.key[1]]['rv']['ops'][0])), None))
+            repl = [s for s in sets if s[0] != x.bb and x.bb in body.reach(body.xsucc(s[0]) if s[2] is not None else [s[0]], avoid=inf)]
+            repl_bbs = {s[0] for s in repl}
             w = body.must_before(x.bb, ctx.both(inf, lambda n: n in repl_bbs))
             R.ob('EXEC-2a', key, w is None and bool(repl), 'the executing-task field is set to the task before it executes' if (w is None and repl)
-                 else 'a path reaches the execution without the executing-task field being set to this task:\n' + (body.fmt_path(w) if w else '(no replace call found)'),
+                 else 'a path reaches the execution without the executing-task field being set to this task:\n' + (body.fmt_path(w) if w else '(no assignment of Some(task) to the field found)'),
                  ctx.where(body, x.bb), props=('C05', 'C06', 'C07', 'C08'))
+            saved_calls = {s[2].bb for s in repl if s[2] is not None} | {c.bb for c in body.calls.values() if c.qname in ('std::option::Option::take', 'std::mem::take') and c.args and ctx.is_cur(body.orig_operand(c.args[0]))}
             restore_bbs = set()
             for (bb, si, place, rv, ln) in body.stores:
-                if ctx.is_cur(body.orig_place(place)) and rv['k'] == 'use':
+                if ctx.is_cur(body.orig_place(place)) and rv['k'] == 'use' and bb not in repl_bbs:
                     vo = body.orig_operand(F.operand(rv['op']))
-                    if ctx.base_call_bbs(vo) & repl_bbs:
+                    if ctx.base_call_bbs(vo) & saved_calls or (vo and all(ctx.is_cur(frozenset([o])) for o in vo)):
                         restore_bbs.add(bb)
+            for c in body.calls.values():
+                if c.qname in ('std::mem::replace', 'std::option::Option::replace') and c.bb not in repl_bbs and c.args and ctx.is_cur(body.orig_operand(c.args[0])) and len(c.args) > 1:
+                    if ctx.base_call_bbs(body.orig_operand(c.args[1])) & saved_calls:
+                        restore_bbs.add(c.bb)
             w = body.must_after(x.bb, ctx.both(inf, lambda n: n in restore_bbs))
             R.ob('EXEC-2b', key, w is None, 'the previous executing task is restored on every normal path after the execution' if w is None
                  else 'a normal path returns after the execution without restoring the previous executing task:\n' + body.fmt_path(w),
                  ctx.where(body, x.bb), props=('C05', 'C06', 'C07', 'C08', 'C20'))
-            repl_nodes = {body.orig_operand(c.args[1]) for c in repl}
+            repl_nodes = {s[1] for s in repl}
             # EXEC-3 tracker start / end with the produced output
             start_blocks = ev_start.blocks_with(body)
             w = body.must_before(x.bb, ctx.both(inf, lambda n: n in start_blocks))
